@@ -35,7 +35,10 @@ def setup(x64: bool | None = None):
     import jax
 
     jax.config.update("jax_enable_x64", bool(x64))
-    cache = os.environ.get("MC_JAX_CACHE", os.path.join(os.path.dirname(os.path.dirname(os.path.abspath(__file__))), ".scratch", "jaxcache"))
+    # OFF by default: XLA:CPU's persistent cache proved unreliable here (sporadic "Failed to materialize symbols"
+    # / segfaults when cached single-op kernels with identical symbol names are loaded into one process); a
+    # developer may opt in with MC_JAX_CACHE=<dir> for local iteration, never for registered commands.
+    cache = os.environ.get("MC_JAX_CACHE", "")
     if cache in ("0", "off"):
         cache = ""
     if cache:
@@ -45,7 +48,33 @@ def setup(x64: bool | None = None):
         jax.config.update("jax_compilation_cache_dir", cache)
         jax.config.update("jax_persistent_cache_min_compile_time_secs", 0.0)
         jax.config.update("jax_persistent_cache_min_entry_size_bytes", -1)
+        _atomic_cache_writes()
     _equinox_shim()
+
+
+def _atomic_cache_writes():
+    """jax's file cache writes entries with a plain write_bytes; with 16 workers sharing the directory a reader
+    can see a half-written executable and crash while deserialising it. Write to a temp file and rename."""
+    try:
+        import os as _os
+
+        from jax._src import lru_cache
+
+        def put(self, key, value):
+            if not key:
+                raise ValueError("key cannot be empty")
+            cache_path = self.path / f"{key}{lru_cache._CACHE_SUFFIX}"
+            if cache_path.exists():
+                return
+            tmp = self.path / f".tmp-{_os.getpid()}-{key}"
+            tmp.write_bytes(value)
+            _os.replace(tmp, cache_path)
+
+        lru_cache.LRUCache.put = put
+    except Exception:  # pragma: no cover
+        import jax
+
+        jax.config.update("jax_compilation_cache_dir", None)
 
 
 def _equinox_shim():
